@@ -95,7 +95,8 @@ def gen_case(rng, tier):
     return {"net": net.json(), "tree": gen.rand_tree(rng, len(net.inputs)),
             "order": rng.choice(["dfs", "callable", "surface"]), "late": rng.random() < 0.5,
             "seed": rng.randrange(1 << 30),
-            "finders": rng.random() < (0.15 if tier == "quick" else 0.08)}
+            "finders": rng.random() < (0.15 if tier == "quick" else 0.08),
+            "restructure": rng.random() < 0.3}
 
 
 def build(case):
@@ -357,6 +358,66 @@ def correspond(ctx, drv, case, runs, path):
     return ok
 
 
+def restructure_oracle(case, net, tree, order, ctx):
+    """State that survives between calls: the estimates have just been queried on this tree object (by `analyse`);
+    now the *same object* is restructured in place by a whole-tree transformation and queried again with the same
+    options. The answer must be the one a copy of the tree -- same structure, nothing remembered -- gives."""
+    class _NoCount:
+        def count(self, *a):
+            pass
+    ctx = ctx or _NoCount()
+    rr = random.Random(case["seed"] ^ 0x5EED)
+    late = case["late"]
+    named = order if isinstance(order, str) else "dfs"
+    chis = [1, 2, 4, prod(net.sizes.values()) + 1]
+    for chi in chis:     # make sure every option combination used below has been asked before
+        tree.compressed_contract_stats(chi=chi, order=named, compress_late=late)
+    k = rr.randrange(5)
+    before = sorted(tuple(sorted(p)) for p in tree.children)
+    try:
+        if k == 0:
+            what = "subtree_reconfigure_forest_"
+            tree.subtree_reconfigure_forest_(num_trees=2, num_restarts=1, subtree_maxiter=3, subtree_size=4,
+                                             parallel=False, seed=rr.randrange(1 << 30))
+        elif k == 1:
+            what = "parallel_temper_"
+            tree.parallel_temper_(tsteps=1, numiter=3, num_trees=2, parallel=False, seed=rr.randrange(1 << 30))
+        elif k == 2:
+            what = "simulated_anneal_"
+            tree.simulated_anneal_(tsteps=2, numiter=4, seed=rr.randrange(1 << 30))
+        elif k == 3:
+            what = "subtree_reconfigure_"
+            tree.subtree_reconfigure_(subtree_size=4, maxiter=3, seed=rr.randrange(1 << 30),
+                                      minimize=rr.choice(["size", "flops", "write"]))
+        else:
+            what = "windowed_reconfigure_" if hasattr(tree, "windowed_reconfigure_") and \
+                isinstance(tree, ctg.ContractionTreeCompressed) else "slice_and_reconfigure_forest_"
+            if what == "windowed_reconfigure_":
+                tree.windowed_reconfigure_(window_size=4, max_iterations=4, seed=rr.randrange(1 << 30))
+            else:
+                tree.slice_and_reconfigure_forest_(max(1, tree.max_size() // 2), num_trees=2, max_repeats=2,
+                                                   parallel=False, reconf_opts={"subtree_size": 4, "maxiter": 2})
+    except Exception as e:   # the transformation itself is not C20's business
+        ctx.count("restructure_raises:" + type(e).__name__)
+        return []
+    changed = sorted(tuple(sorted(p)) for p in tree.children) != before
+    ctx.count("restructure:%s:%s" % (what, "changed" if changed else "same-structure"))
+    bad = []
+    twin = tree.copy()
+    for chi in chis:
+        try:
+            a = tracker_fields(tree.compressed_contract_stats(chi=chi, order=named, compress_late=late))
+            b = tracker_fields(twin.compressed_contract_stats(chi=chi, order=named, compress_late=late))
+        except Exception as e:
+            ctx.count("restructure_stats_raise:" + type(e).__name__)
+            return bad
+        if a != b:
+            bad.append(({"site": "compressed_contract_stats", "kind": "stale-after-inplace-restructure", "op": what},
+                        {"chi": chi, "order": named, "tree": a, "copy_of_tree": b}))
+            break
+    return bad
+
+
 def check_case(ctx, drv, case):
     try:
         net, tree, order, runs, api, path, exact = analyse(case)
@@ -383,6 +444,9 @@ def check_case(ctx, drv, case):
     nontrivial = len(net.inputs) >= 3 and (bool(truncated) or merged or "hyper" in feats)
     ctx.case(case, nontrivial=nontrivial)
     bad = oracle(case, net, tree, runs, api, path, exact)
+    if case.get("restructure") and len(net.inputs) >= 3:
+        b3 = restructure_oracle(case, net, tree, order, ctx)
+        bad += b3
     if case.get("finders"):
         b2, nruns = finder_oracle(case, net)
         bad += b2
@@ -417,6 +481,8 @@ def _oracle_only(case):
     except ImplRaises as e:
         return [({"site": "compressed_contract_stats", "kind": "raises"}, str(e))]
     bad = oracle(case, net, tree, runs, api, path, exact)
+    if case.get("restructure") and len(net.inputs) >= 3:
+        bad += restructure_oracle(case, net, tree, order, None)
     if case.get("finders"):
         bad += finder_oracle(case, net)[0]
     return bad
